@@ -222,11 +222,13 @@ theorem mkTX (c : Cfg) (hdid : c.tdid = c.idid) (A B : TState → Prop) (r1 : Op
   aReq := hAreq
   bReq := fun t h => by
     have := PB_dep c hdid (hB t h) fmt ⟨hf.1, hf.2.1⟩ c.inad data
-    show (tRx c t _).1 = t ∧ ((tRx c t _).2 = r1 ∨ (tRx c t _).2 = none)
-    rw [this]; exact ⟨rfl, Or.inl rfl⟩
+    show B (tRx c t _).1 ∧ ((tRx c t _).2 = r1 ∨ (tRx c t _).2 = none)
+    rw [this]; exact ⟨h, Or.inl rfl⟩
   bNak := fun t h => by
     have := PB_dep c hdid (hB t h) fNAK (by decide) c.inad []
-    show (tRx c t _).1 = t ∧ ((tRx c t _).2 = r1 ∨ (tRx c t _).2 = none)
-    rw [this]; exact ⟨rfl, Or.inl rfl⟩
-  bAtn := fun t h => PB_atn c (hB t h)
+    show B (tRx c t _).1 ∧ ((tRx c t _).2 = r1 ∨ (tRx c t _).2 = none)
+    rw [this]; exact ⟨h, Or.inl rfl⟩
+  bAtn := fun t h => by
+    show B (tRx c t _).1
+    rw [PB_atn c (hB t h)]; exact h
 end NfcVerif.NfcDep
